@@ -13,7 +13,7 @@ CLAIMED["C13"] = dict(cat="exploration",
    ref="5 C13", note="Interleavings are explored at storage/source-call granularity plus one hook before a written pack is indexed; inside a step the threads run FIFO-serialised. Trusted: the simulator's own pack/index decoder.",
    tech="deterministic simulation: same command re-executed under many seeded schedules, differential oracle + independent store audit")
 CLAIMED["C03"] = dict(cat="fault_enumeration",
-   text="For each command kind (backup first/next, forget of one/several snapshots, prune mark/instant/delete-marked/repack-all/mark with early-delete-index but without instant-delete, repair index +/- read-all, repair snapshots, rewrite of trees or of metadata + forget, merge, config change + key add, password change (add key, delete old key; some password must open the repository at every prefix), copy into; prune / instant prune / backup started on the state an interrupted earlier run of the same command left behind) on a generated pre-state: one execution under a seeded gate schedule records the write/remove log; EVERY crash prefix of that log is opened with a fresh handle and every visible snapshot is read completely (old ones compared with their model); then single storage-op failures (no effect / lost acknowledgement) are injected at up to 12/24 positions under the same schedule: the command must return Err, never Ok, panic or hang, and the resulting states must satisfy the same oracle. Exhaustive over prefixes of each explored log; sampled over inputs, schedules and configs.",
+   text="For each command kind (backup first/next, forget of one/several snapshots, prune mark/instant/delete-marked/repack-all/mark with early-delete-index but without instant-delete, repair index +/- read-all, repair snapshots, rewrite of trees or of metadata + forget, merge, config change + key add, password change (add key, delete old key; some password must open the repository at every prefix), copy into; prune / instant prune / backup started on the state an interrupted earlier run of the same command left behind) on a generated pre-state: one execution under a seeded gate schedule records the write/remove log; EVERY crash prefix of that log is opened with a fresh handle and every visible snapshot is read completely (old ones compared with their model); then single storage-op failures (no effect / lost acknowledgement) are injected at up to 12/24 positions under the same schedule: the command must return Err, never Ok, panic or hang, and the resulting states must satisfy the same oracle; finally one read or listing of the command fails (up to 6/12 positions; not for the repair commands): the command may cope or give up but must not panic or hang and the final state must satisfy the oracle. Exhaustive over prefixes of each explored log; sampled over inputs, schedules and configs.",
    ref="5 C03", note="Storage ops are atomic in SimStore; the log is one observed linearisation per run of the concurrent writers (different schedules give different ones). instant-delete+early-delete-index and hot/cold are excluded as the property says.",
    tech="deterministic simulation: op-log crash-prefix enumeration + single-fault re-execution under the recorded schedule")
 CLAIMED["C02"] = dict(cat="exploration",
